@@ -1,0 +1,133 @@
+//! Thin public wrappers over crate-private items, for the verification harness only
+//! (`--cfg locustdb_verif`).
+use std::path::Path;
+use std::sync::Arc;
+
+use ordered_float::OrderedFloat;
+
+use crate::disk_store::verif_reexport::{BlobWriter, FileBlobWriter, PartitionSegment, VersionedChecksummedBlobWriter};
+use crate::ingest::raw_val::RawVal;
+use crate::mem_store::column_buffer::ColumnBuffer;
+use crate::mem_store::{Column, DataSource};
+use crate::Options;
+
+pub fn sanitize_table_name(name: &str) -> String {
+    crate::disk_store::storage::verif_sanitize_table_name(name)
+}
+
+pub fn partition_filename(id: u64, key: &str) -> String {
+    crate::disk_store::storage::verif_partition_filename(id, key)
+}
+
+/// Runs the real `subpartition()` and returns (key, last_column, column names) per sub-partition.
+pub fn subpartition(
+    max_partition_size_bytes: u64,
+    columns: Vec<Arc<Column>>,
+) -> Vec<(String, String, Vec<String>)> {
+    let opts = Options {
+        max_partition_size_bytes,
+        ..Options::default()
+    };
+    let (md, subs) = crate::scheduler::inner_locustdb::verif_subpartition(&opts, columns);
+    md.into_iter()
+        .zip(subs)
+        .map(|(m, cols)| {
+            (
+                m.subpartition_key,
+                m.last_column,
+                cols.iter().map(|c| c.name().to_string()).collect(),
+            )
+        })
+        .collect()
+}
+
+pub fn blob_store(path: &Path, data: &[u8]) -> Result<(), String> {
+    let w = VersionedChecksummedBlobWriter::new(Box::new(FileBlobWriter::new()));
+    w.store(path, data).map_err(|e| e.to_string())
+}
+
+pub fn blob_load(path: &Path) -> Result<Vec<u8>, String> {
+    let w = VersionedChecksummedBlobWriter::new(Box::new(FileBlobWriter::new()));
+    w.load(path).map_err(|e| e.to_string())
+}
+
+/// One step of building a column through the mem-store `ColumnBuffer`.
+pub enum Push {
+    Ints(Vec<i64>),
+    Floats(Vec<f64>),
+    Strs(Vec<String>),
+    Nulls(usize),
+    Val(RawVal),
+    /// values plus presence flags (the compaction entry point)
+    IntsPresent(Vec<i64>, Vec<bool>),
+    FloatsPresent(Vec<f64>, Vec<bool>),
+    StrsPresent(Vec<String>, Vec<bool>),
+}
+
+fn bitmap(present: &[bool]) -> Vec<u8> {
+    let mut v = vec![0u8; present.len().div_ceil(8)];
+    for (i, p) in present.iter().enumerate() {
+        if *p {
+            v[i / 8] |= 1 << (i % 8);
+        }
+    }
+    v
+}
+
+pub fn build_column(name: &str, pushes: Vec<Push>) -> Arc<Column> {
+    let mut b = ColumnBuffer::default();
+    for p in pushes {
+        match p {
+            Push::Ints(v) => b.push_ints(v, None),
+            Push::Floats(v) => b.push_floats(v.into_iter().map(OrderedFloat), None),
+            Push::Strs(v) => b.push_strings(v.iter().map(|s| s.as_str()), None),
+            Push::Nulls(n) => b.push_nulls(n),
+            Push::Val(v) => b.push_val(v),
+            Push::IntsPresent(v, p) => b.push_ints(v, Some(&bitmap(&p))),
+            Push::FloatsPresent(v, p) => {
+                b.push_floats(v.into_iter().map(OrderedFloat), Some(&bitmap(&p)))
+            }
+            Push::StrsPresent(v, p) => {
+                b.push_strings(v.iter().map(|s| s.as_str()), Some(&bitmap(&p)))
+            }
+        }
+    }
+    b.finalize(name)
+}
+
+/// Decodes a column with the free-standing decoder used by compaction.
+pub fn decode_column(col: &Column) -> Vec<RawVal> {
+    let decoded = col.decode();
+    (0..decoded.len()).map(|i| decoded.get_raw(i)).collect()
+}
+
+pub fn column_signature(col: &Column) -> String {
+    format!(
+        "{} | {:?}",
+        col.codec().signature(true),
+        col.data()
+            .iter()
+            .map(|d| format!("{:?}", d.encoding_type()))
+            .collect::<Vec<_>>()
+    )
+}
+
+pub fn column_lz4_or_pco_encode(col: &Arc<Column>) -> Column {
+    let mut c: Column = serde_json::from_str(&serde_json::to_string(&**col).unwrap()).unwrap();
+    c.lz4_or_pco_encode();
+    c
+}
+
+pub fn column_to_json(col: &Column) -> String {
+    serde_json::to_string(col).unwrap()
+}
+
+pub fn partition_segment_serialize(cols: &[&Column]) -> Vec<u8> {
+    PartitionSegment::serialize(cols)
+}
+
+pub fn partition_segment_deserialize(data: &[u8]) -> Result<Vec<Column>, String> {
+    PartitionSegment::deserialize(data)
+        .map(|s| s.columns)
+        .map_err(|e| e.to_string())
+}
